@@ -29,7 +29,7 @@ WANT = ('C07',)
 def run(ctx):
     sc.pylist_micro(ctx)
     sc.source_micro(ctx)
-    sc.run_generated(ctx, WANT, ctx.budget(220, 1500), ctx.budget(60, 400))
+    sc.run_generated(ctx, WANT, ctx.budget(140, 1500), ctx.budget(40, 400))
     if ctx.quick:
         sc.small_scope(ctx, WANT, [(2, 1), (2, 2)], sc.FRONTENDS, with_wrappers=True)
     else:
